@@ -35,7 +35,7 @@ prop("C05",
      harness="c05_loglik",
      runs={"quick": _runs_override, "thorough": _runs_override} if _runs_override else {
          "quick": [dict(flavour="asan", cases=140), dict(flavour="rel", cases=1400)],
-         "thorough": [dict(flavour="asan", cases=800), dict(flavour="rel", cases=12000),
+         "thorough": [dict(flavour="asan", cases=700), dict(flavour="rel", cases=12000),
                       dict(flavour="memcheck", cases=120, mode="orders", env={"VERIF_C05_ALLOC": "plain"})],
      },
      min_nontrivial={"quick": 900, "thorough": 8000},
